@@ -7,9 +7,15 @@
 (*          named tolerances                                   (C08, C02)      *)
 (*  Part 3  small exact rationals <<n, d>> and the same closed forms as        *)
 (*          rationals (design-level cross-checks, reference element tables)    *)
+(*  Part 4  exact integrals of monomials over straight cells / facets with     *)
+(*          integer vertices (multinomial simplex formula), over boxes; exact  *)
+(*          measures                                              (C02)        *)
+(*  Part 5  polynomials in barycentric coordinates, Lagrange bases in          *)
+(*          Silvester's product form, exact local mass / stiffness / load      *)
+(*          entries of P0-P2 on affine simplices                  (C02)        *)
 (*                                                                             *)
 (* All operators keep every intermediate below 2^31 on the stated domains.     *)
-EXTENDS Prelude, Fx
+EXTENDS Prelude, Fx, GeomNum
 
 \* ===========================================================================
 \* Part 1 -- fixed point
@@ -178,4 +184,117 @@ QRefMoment(kind, alpha) ==
     [] kind \in {"line", "quad", "hex"} -> QBoxMoment(alpha)
     [] kind \in {"tri", "tet"} -> QSimplexMoment(alpha)
     [] kind = "wedge" -> QMul(QSimplexMoment(<<alpha[1], alpha[2]>>), Q(1, alpha[3] + 1))
+
+\* ===========================================================================
+\* Part 4 -- exact integrals of monomials over cells with integer vertices
+\* ===========================================================================
+\* x^alpha as a product of q = |alpha| coordinate functions: the sequence of their coordinate indices
+RECURSIVE Repeat(_, _)
+Repeat(x, n) == IF n = 0 THEN <<>> ELSE <<x>> \o Repeat(x, n - 1)
+MonoFactors(alpha) == FlattenSeq([c \in DOMAIN alpha |-> Repeat(c, alpha[c])])
+ProdFact(counts) == LET RECURSIVE P(_) P(i) == IF i > Len(counts) THEN 1 ELSE Fact(counts[i]) * P(i + 1) IN P(1)
+
+\* On a simplex with vertices v_1..v_m every coordinate function is  sum_i lambda_i v_i[c].  Expanding the
+\* product of the q coordinate functions over all maps s : factors -> vertices and integrating
+\*   int lambda^beta = k! |T| beta! / (|beta| + k)!            (k = m - 1)
+\* gives   int_T x^alpha = Jac / (q + k)! * SimplexMonoSum   with Jac = k! |T|  and
+\*   SimplexMonoSum = sum_s  prod_f v_s(f)[c_f] * beta(s)!        (an integer)
+RECURSIVE MonoSumRec(_, _, _, _)
+MonoSumRec(vs, cs, f, counts) ==
+  IF f > Len(cs) THEN ProdFact(counts)
+  ELSE SumSeq([i \in 1..Len(vs) |->
+                 IF vs[i][cs[f]] = 0 THEN 0
+                 ELSE vs[i][cs[f]] * MonoSumRec(vs, cs, f + 1, [counts EXCEPT ![i] = @ + 1])])
+SimplexMonoSum(vs, alpha) == MonoSumRec(vs, MonoFactors(alpha), 1, [i \in 1..Len(vs) |-> 0])
+
+\* integral of x^alpha over one simplex (integer vertices), as a limb vector: Jac * Sum / (q + k)!
+SimplexIntegralFx(vs, alpha) ==
+  FxMulSmall(FxRat(SimplexMonoSum(vs, alpha), Fact(SumSeq(alpha) + Len(vs) - 1)), SimplexJac(vs))
+RECURSIVE FxSumRun(_, _, _)
+FxSumRun(acc, s, k) == IF ~Seen(acc) \/ k > Len(s) THEN acc ELSE FxSumRun(FxAdd(acc, s[k]), s, k + 1)
+FxSumAll(s) == FxSumRun(FxZero, s, 1)
+\* over a union of simplices
+SimplicesIntegralFx(S, alpha) == FxSumAll([s \in DOMAIN S |-> SimplexIntegralFx(S[s], alpha)])
+CellIntegralFx(kind, vs, alpha)  == SimplicesIntegralFx(CellSimplices(kind, vs), alpha)
+FacetIntegralFx(vs, alpha)       == SimplicesIntegralFx(FacetSimplices(vs), alpha)
+\* k! * measure of a union of simplices (integer)
+SimplicesJac(S) == SumSeq([s \in DOMAIN S |-> SimplexJac(S[s])])
+
+\* x / scale^n for a power-of-two scale (scale^n <= 2^16 on the universes)
+Unscale(x, scale, n) == IF scale = 1 THEN x ELSE FxDivSmall(x, scale ^ n)
+
+\* integral of x^alpha over the axis-parallel box [lo, hi] (integer corners):
+\*   prod_c (hi_c^(a_c+1) - lo_c^(a_c+1)) / prod_c (a_c + 1)
+BoxIntegralNum(lo, hi, alpha) ==
+  LET RECURSIVE P(_) P(c) == IF c > Len(alpha) THEN 1
+                             ELSE (hi[c] ^ (alpha[c] + 1) - lo[c] ^ (alpha[c] + 1)) * P(c + 1) IN P(1)
+BoxIntegralDen(alpha) == LET RECURSIVE P(_) P(c) == IF c > Len(alpha) THEN 1 ELSE (alpha[c] + 1) * P(c + 1) IN P(1)
+BoxIntegralFx(lo, hi, alpha) == FxRat(BoxIntegralNum(lo, hi, alpha), BoxIntegralDen(alpha))
+
+\* tolerance TolSum times a (possibly large) integer magnitude bound K < 2^27
+TolScaled(tol, K) == IF K <= 4096 THEN FxMulSmall(tol, Max2(K, 1))
+                     ELSE FxMulSmall(FxMulSmall(tol, (K \div 4096) + 1), 4096)
+RECURSIVE IPow(_, _)
+IPow(b, n) == IF n = 0 THEN 1 ELSE b * IPow(b, n - 1)
+
+\* ===========================================================================
+\* Part 5 -- Lagrange bases on the reference simplex, exact element matrices
+\* ===========================================================================
+\* A polynomial in the barycentric coordinates lambda_1..lambda_m is a sequence of terms <<coef, beta>>,
+\* coef an integer, beta \in [1..m -> Nat].  (lambda_1 = 1 - sum xi, lambda_(a+1) = xi_a.)
+PTerm(c, beta) == <<c, beta>>
+PConst(m, c)   == << PTerm(c, [i \in 1..m |-> 0]) >>
+PMul(p, q) == FlattenSeq([i \in DOMAIN p |-> [j \in DOMAIN q |->
+                 PTerm(p[i][1] * q[j][1], [k \in DOMAIN p[i][2] |-> p[i][2][k] + q[j][2][k]])]])
+\* k * lambda_i - r
+PLin(m, i, k, r) == IF r = 0 THEN << PTerm(k, [j \in 1..m |-> IF j = i THEN 1 ELSE 0]) >>
+                    ELSE << PTerm(k, [j \in 1..m |-> IF j = i THEN 1 ELSE 0]), PTerm(-r, [j \in 1..m |-> 0]) >>
+\* d/d lambda_i
+PDeriv(p, i) == SelectSeq([t \in DOMAIN p |-> PTerm(p[t][1] * p[t][2][i], [p[t][2] EXCEPT ![i] = IF @ > 0 THEN @ - 1 ELSE 0])],
+                          LAMBDA t : t[1] # 0)
+\* int over the reference simplex of dimension d = m - 1 :  beta! / (|beta| + d)!
+PIntegral(p) ==
+  QSumSeq([t \in DOMAIN p |-> Q(p[t][1] * ProdFact(p[t][2]), Fact(SumSeq(p[t][2]) + Len(p[t][2]) - 1))])
+
+\* Silvester: the Lagrange function of degree deg at the node with barycentric numerators node (sum = deg) is
+\*    prod_i prod_{r < node_i} (deg * lambda_i - r) / (r + 1)
+\* returned as [num |-> integer polynomial, den |-> prod node_i!]
+RECURSIVE SilvesterRun(_, _, _, _, _)
+SilvesterRun(p, m, deg, node, ir) ==      \* ir = <<i, r>>
+  LET i == ir[1] r == ir[2] IN
+  IF i > m THEN p
+  ELSE IF r >= node[i] THEN SilvesterRun(p, m, deg, node, <<i + 1, 0>>)
+  ELSE SilvesterRun(PMul(p, PLin(m, i, deg, r)), m, deg, node, <<i, r + 1>>)
+Lagrange(deg, node) == [num |-> SilvesterRun(PConst(Len(node), 1), Len(node), deg, node, <<1, 0>>),
+                        den |-> ProdFact(node)]
+\* the nodes of the Lagrange element of degree deg on the simplex with m vertices
+LagrangeNodes(m, deg) == {node \in [1..m -> 0..deg] : SumSeq(node) = deg}
+
+\* reference integrals (rationals)
+RefMass(deg, ni, nj) == LET a == Lagrange(deg, ni) b == Lagrange(deg, nj)
+                        IN QMul(PIntegral(PMul(a.num, b.num)), Q(1, a.den * b.den))
+RefLoad(deg, ni)     == LET a == Lagrange(deg, ni) IN QMul(PIntegral(a.num), Q(1, a.den))
+\* int (d phi_i / d lambda_r)(d phi_j / d lambda_s)
+RefGrad(deg, ni, nj, r, s) == LET a == Lagrange(deg, ni) b == Lagrange(deg, nj)
+                              IN QMul(PIntegral(PMul(PDeriv(a.num, r), PDeriv(b.num, s))), Q(1, a.den * b.den))
+
+\* det * grad(lambda_i) on the affine simplex vs (integer vectors): rows of the adjugate
+DetGradLambda(vs) ==
+  LET d == Len(vs) - 1
+      e == [a \in 1..d |-> VSub(vs[a + 1], vs[1])]
+      g == CASE d = 1 -> << <<1>> >>
+             [] d = 2 -> << <<e[2][2], -e[2][1]>>, <<-e[1][2], e[1][1]>> >>
+             [] d = 3 -> << Cross3(e[2], e[3]), Cross3(e[3], e[1]), Cross3(e[1], e[2]) >>
+      g0 == VNeg(IF d = 1 THEN g[1] ELSE IF d = 2 THEN VAdd(g[1], g[2]) ELSE VAdd(g[1], VAdd(g[2], g[3])))
+  IN <<g0>> \o g
+
+\* exact local entries on the affine simplex vs (as limb vectors; every denominator is below 2^16)
+LocalMassFx(vs, deg, ni, nj) == FxMulSmall(FxOfQ(RefMass(deg, ni, nj)), Abs(SimplexDet(vs)))
+LocalLoadFx(vs, deg, ni)     == FxMulSmall(FxOfQ(RefLoad(deg, ni)), Abs(SimplexDet(vs)))
+\* sum_{r,s} (g_r . g_s) int d_r phi_i d_s phi_j / |det|
+LocalLaplaceQ(vs, deg, ni, nj) ==
+  LET g == DetGradLambda(vs) m == Len(vs) IN
+  QMul(QSumSeq(FlattenSeq([r \in 1..m |-> [s \in 1..m |->
+         QMul(QInt(VDot(g[r], g[s])), RefGrad(deg, ni, nj, r, s))]])), Q(1, Abs(SimplexDet(vs))))
+LocalLaplaceFx(vs, deg, ni, nj) == FxOfQ(LocalLaplaceQ(vs, deg, ni, nj))
 ==============================================================================
